@@ -1,8 +1,47 @@
 import Driver.Proto
-/-! driver handlers for property C04 (ops `model.*`, `spec.*`, `trig.*`) -/
+import Verif.Model.Css
+/-! driver handlers for property C04 (ops `model.c04.*`, `spec.c04.*`) -/
 namespace Verif.Driver.C04
 open Verif Verif.Driver
+open Verif.Spec.CssValue (TT Tok)
 
-def handlers : List (String × Handler) := []
+/-- a group `[tt code, lexeme]` → flat token -/
+def decodeTok (g : List Bytes) : Except String Tok :=
+  match g with
+  | [code, data] =>
+    match parseIntChars (bytesToChars code) with
+    | some n => .ok (.mk (TT.ofCode n.toNat) (bytesToChars data) [])
+    | none => .error "bad token type"
+  | [code] =>
+    match parseIntChars (bytesToChars code) with
+    | some n => .ok (.mk (TT.ofCode n.toNat) [] [])
+    | none => .error "bad token type"
+  | _ => .error "bad token group"
+
+/-- `model.c04.num decimal lexeme` → `minify.Decimal(lexeme, 0)` / `minify.Number(lexeme, 0)` -/
+def numOp : Handler := fun args => do
+  let css2 ← argBool args 0
+  let s ← argChars args 1
+  .ok (charsToBytes (if css2 then Model.CssNum.decimal0 s else Model.CssNum.number0 s))
+
+/-- `model.c04.decl keepCSS2 prop components` → `[S|N, bytes written after "prop:"]` -/
+def declOp : Handler := fun args => do
+  let css2 ← argBool args 0
+  let prop ← argChars args 1
+  let gs ← argGroups args 2
+  let comps ← gs.mapM decodeTok
+  match Model.Css.minifyDeclaration ⟨css2⟩ prop comps with
+  | some out => .ok (listReply [strBytes "S", charsToBytes out])
+  | none => .ok (listReply [strBytes "N"])
+
+/-- `spec.c04.holds prop inComponents outComponents` → `1` same / `0` different / `2` not judged -/
+def holdsOp : Handler := fun args => do
+  let prop ← argChars args 0
+  let a ← (← argGroups args 1).mapM decodeTok
+  let b ← (← argGroups args 2).mapM decodeTok
+  .ok (natBytes (Spec.CssValue.verdict prop (Spec.CssValue.nest a) (Spec.CssValue.nest b)))
+
+def handlers : List (String × Handler) :=
+  [("model.c04.num", numOp), ("model.c04.decl", declOp), ("spec.c04.holds", holdsOp)]
 
 end Verif.Driver.C04
